@@ -98,6 +98,11 @@ func StreamBatch(stream <-chan *gdbi.GraphElement, batchSize int, graph string, 
 				edgeBatch = append(edgeBatch, edge)
 				edgeCount++
 			}
+		} else {
+			bulkErr = multierror.Append(
+				bulkErr,
+				fmt.Errorf("element has neither vertex nor edge"),
+			)
 		}
 	}
 	vertexBatchChan <- vertexBatch
